@@ -29,6 +29,8 @@ What is proved, for every list length `n`, every pairwise function, every job co
 * `allpairs_perm_equivariant`, `parallel_perm_equivariant`, `allpairs_raises_iff`: the same for `compare_all_pairs` /
   `compare_parallel` themselves, for ALL `n_jobs` and chunkings (nothing about the parallel path is `_partial`).
 * `perm_equivariant_containment`: no symmetry needed for the containment matrix.
+* `earlier_results_unchanged`, `earlier_results_unchanged_by_any_sequence`: in the model results are values; the
+  implementation's memory-mapped results are tied to that by the stream's `recheck` op.
 -/
 import SmVerif.Lemmas.CompareOnce
 
@@ -343,6 +345,35 @@ theorem allpairs_raises_iff (n : Nat) (hn : 0 < n) (jobs : Option Nat) (hj : job
     (∃ e, compareAllPairs n jobs cell one zero = .error e) ↔ ∃ i j, i < j ∧ j < n ∧ ∃ e, cell i j = .error e := by
   rw [allpairs_eq_serial n hn jobs hj]
   exact serial_raises_iff_some_pair_raises n cell one
+
+/-! ### results are values
+
+The model's builders return matrices as VALUES: in a history of calls (serial and parallel, any lists, any `n_jobs`)
+a later call cannot change what an earlier call returned.  In the implementation `compare_parallel` returns an
+`np.memmap` opened on a scratch file written by `np_utils.to_memmap`; the statement is true of it only as long as every
+call gets its own file.  That is not provable from the model (file identity is not modelled); it is TIED by the `recheck`
+op of the compare stream: the adapter keeps every matrix object uncopied for the whole case and re-reads all of them
+after every later pool-based call (oracle signature `C16:earlier-result-changed`). -/
+
+/-- a history of the compare API: the results handed out so far, oldest first -/
+abbrev History (α : Type) := List (Except String (Mat α))
+
+/-- one more call (`run` = any of the builders applied to any list) -/
+def History.call (h : History α) (run : Except String (Mat α)) : History α := h ++ [run]
+
+theorem earlier_results_unchanged (h : History α) (run : Except String (Mat α)) (i : Nat) (hi : i < h.length) :
+    (h.call run)[i]? = h[i]? := by
+  unfold History.call
+  exact List.getElem?_append_left hi
+
+theorem earlier_results_unchanged_by_any_sequence (h : History α) (runs : List (Except String (Mat α))) (i : Nat)
+    (hi : i < h.length) : (runs.foldl History.call h)[i]? = h[i]? := by
+  induction runs generalizing h with
+  | nil => rfl
+  | cons r rs ih =>
+    simp only [List.foldl_cons]
+    rw [ih (h.call r) (by unfold History.call; simp; omega)]
+    exact earlier_results_unchanged h r i hi
 
 /-! ### non-vacuity: concrete runs of the model -/
 
